@@ -26,8 +26,8 @@ import c18_tables  # noqa: E402
 
 MALLOC_LIMIT_MB = 64
 # theorems of Properties_C18.v that are about the tables translated from /repo
-TABLE_DEPENDENT = {"C18HashTable.v": {"C18_hash_mod_correct", "C18_hash_insert_refines", "C18_hash_insert_arena"},
-                   "C18VecTable.v": {"C18_vec_expand_byte_size", "C18_vec_ops_refine_list", "C18_vec_step_refines_list", "C18_vec_reserve", "C18_vec_step_frame", "C18_vec_other_vector_survives"}}
+TABLE_DEPENDENT = {"C18HashTable.v": {"C18_hash_mod_correct", "C18_hash_insert_refines", "C18_hash_insert_arena", "C18_world2_step_ok", "C18_world2_any_interleaving"},
+                   "C18VecTable.v": {"C18_vec_expand_byte_size", "C18_vec_ops_refine_list", "C18_vec_step_refines_list", "C18_vec_reserve", "C18_vec_step_frame", "C18_vec_other_vector_survives", "C18_world_step_refines", "C18_world_ops_refine_lists", "C18_world2_step_ok", "C18_world2_any_interleaving"}}
 MALLOC_LIMIT = MALLOC_LIMIT_MB << 20
 SIZE_MAX = (1 << 64) - 1
 
@@ -87,8 +87,12 @@ def gen_arena_script(rng, n):
             cmds.append("AR %d" % reusable_size(rng))
         elif r < 0.90:
             cmds.append("AF %d %d" % (rng.randrange(1 << 20), rng.randrange(2)))
-        elif r < 0.95:
+        elif r < 0.93:
             cmds.append("AZ %d" % (1 if rng.random() < 0.35 else 0))
+        elif r < 0.96:
+            cmds.append("AD %d %s" % (rng.randrange(2), hexs(rand_text(rng, rng.choice([0, 1, 7, 8, 9, 15, 16, 100, 1000, 3000]), True))))
+        elif r < 0.98:
+            cmds.append("AG %s" % hexs(rand_text(rng, rng.choice([0, 1, 26, 27, 28, 29, 100]))))
         else:
             cmds.append("AS")
     cmds.append("AS")
@@ -252,6 +256,35 @@ def gen_tree_script(rng, n):
     for _ in range(min(len(keys), 40)):
         cmds.append("T r %d" % rng.randrange(1 << 20))
     cmds.append("T d")
+    return cmds
+
+
+def gen_bitset_script(rng, n):
+    """ArenaBitSet: resize (growing inside a word, across words, with both fill values), append through the capacity, bit ops"""
+    cmds = [new_session(rng)]
+    for _ in range(n):
+        r = rng.random()
+        if r < 0.25:
+            sz = rng.choice([0, 1, 3, 5, 63, 64, 65, 70, 127, 128, 129, 200, 1000, 5000, 20000]) if rng.random() < 0.6 else rng.randrange(0, 400)
+            cmds.append("K z %d %d" % (sz if rng.random() < 0.97 else rng.choice([(1 << 32) - 1, 1 << 32, SIZE_MAX, (MALLOC_LIMIT + 4096) * 8]), rng.randrange(2)))
+        elif r < 0.50:
+            cmds.append("K a %d" % rng.randrange(2))
+        elif r < 0.62:
+            cmds.append("K s %d %d" % (rng.randrange(1 << 30), rng.randrange(2)))
+        elif r < 0.72:
+            cmds.append("K g %d" % rng.randrange(1 << 30))
+        elif r < 0.84:
+            cmds.append("K %s %d %d" % (rng.choice(["f", "c"]), rng.randrange(1 << 30), rng.randrange(1 << 30)))
+        elif r < 0.88:
+            cmds.append("K %s" % rng.choice(["ca", "fa"]))
+        elif r < 0.94:
+            cmds.append("K t %d" % rng.choice([0, 1, 63, 64, 65, rng.randrange(0, 300)]))
+        elif r < 0.96:
+            cmds.append("K x")
+        elif r < 0.99:
+            cmds.append("AR %d" % reusable_size(rng))
+        else:
+            cmds.append("AZ %d" % rng.randrange(2))
     return cmds
 
 
@@ -480,6 +513,8 @@ def gen_scripts(rng, tier):
         scripts.append(gen_tree_script(rng, rng.choice([60, 300, 800])))
     for _ in range(20 if q else 200):
         scripts.append(gen_list_pool_script(rng, rng.choice([60, 250])))
+    for _ in range(25 if q else 250):
+        scripts.append(gen_bitset_script(rng, rng.choice([40, 150, 400])))
     for _ in range(25 if q else 300):
         scripts.append(gen_string_script(rng, 120))
     for _ in range(30 if q else 200):
@@ -533,10 +568,53 @@ def run_pair(ck, impl, model, scripts, shards=16):
     return bins, ri, rm
 
 
+def coverage_count(cov, prev, script, cmd, ans):
+    """explicit coverage counters from one implementation answer (prev: per-script memory)"""
+    t = cmd.split(); c = t[0]
+    f = dict(m.split("=", 1) for m in ans.split() if "=" in m)
+    if f.get("e") == "1" or ans.startswith(("AO null", "AR null")):
+        k = kind_of(cmd)
+        cov["refused_operations_by_kind"][k] = cov["refused_operations_by_kind"].get(k, 0) + 1
+    if c in ("N", "AO", "AR", "AF", "AZ", "AD", "AG") and "chain" in f:
+        chain = [x for x in f["chain"].split(",") if x]
+        cov["arena_chain_max"] = max(cov["arena_chain_max"], len(chain))
+        cov["arena_dynamic_blocks_max"] = max(cov["arena_dynamic_blocks_max"], len([x for x in f.get("dyn", "").split(",") if x]))
+        key = ("chain", script)
+        if c == "AZ":
+            cov["arena_resets"] += 1
+        elif c != "N" and key in prev and len(chain) < len(prev[key]):
+            cov["arena_soft_reset_block_skips"] += 1
+        prev[key] = chain
+    elif c == "V" and "c" in f:
+        cov["vector_capacities_seen"].add(int(f["c"]))
+        key = ("v", script, t[1])
+        if key in prev and prev[key] != f.get("d") and f.get("d") != "null":
+            cov["vector_reallocations"] += 1
+        prev[key] = f.get("d")
+    elif c == "H" and "count" in f:
+        cov["hash_bucket_counts_seen"].add(int(f["count"]))
+        key = ("h", script, t[1])
+        if key in prev and prev[key] != f["count"] and f["count"] != "1":
+            cov["hash_rehashes"] += 1
+        prev[key] = f["count"]
+    elif c == "S" and "k" in f:
+        cov["string_kinds_seen"].add(int(f["k"])); cov["string_max_size"] = max(cov["string_max_size"], int(f["n"]))
+    elif c == "T" and "n" in f:
+        cov["tree_max_nodes"] = max(cov["tree_max_nodes"], int(f["n"]))
+        if f.get("ok") == "1":
+            cov["tree_states_accepted_by_proven_checker"] += 1
+    elif c == "K" and "n" in f:
+        n = int(f["n"]); cov["bitset_max_size"] = max(cov["bitset_max_size"], n)
+        key = ("k", script)
+        if t[1] == "z" and key in prev and prev[key] < n and prev[key] % 64 and prev[key] // 64 == n // 64:
+            cov["bitset_grow_inside_word"] += 1
+        prev[key] = n
+
+
 def kind_of(cmd):
     c = cmd.split()[0]
-    return {"N": "arena", "AO": "arena", "AR": "arena", "AF": "arena", "AZ": "arena", "AS": "arena", "V": "vector", "H": "hash",
-            "S": "string", "B": "bitvec", "R": "bitvec", "T": "tree", "L": "list", "P": "pool", "X1": "vector", "X2": "vector"}.get(c, "other")
+    return {"N": "arena", "AO": "arena", "AR": "arena", "AF": "arena", "AZ": "arena", "AS": "arena", "AD": "arena", "AG": "arena", "V": "vector", "H": "hash",
+            "S": "string", "B": "bitvec", "R": "bitvec", "T": "tree", "L": "list", "P": "pool", "K": "bitset", "X1": "vector", "X2": "vector"}.get(c, "other")
 
 
 def run(ck):
@@ -545,9 +623,18 @@ def run(ck):
     lib_plain = ck.build_lib("plain")
     plain = ck.build_harness("c18", ["c18_harness.cpp"], variant="plain", lib=lib_plain)
     rc, ttext, terr = vlib.sh([plain, "tables"], timeout=120)
-    if rc != 0:
-        raise RuntimeError("table dumper failed: %s" % terr[-2000:])
+    if "\nconsts " not in ttext:
+        raise RuntimeError("table dumper failed: rc=%s %s" % (rc, terr[-2000:]))
+    dumper_crash = None
+    if rc != 0 or "tables_end" not in ttext:
+        # the static tables are complete; the dumper died while growing a fresh ArenaHash through the prime rows
+        done = len([l for l in ttext.splitlines() if l.startswith("grow_real")])
+        dumper_crash = "rc=%s after %d of 24 rehash steps: %s" % (rc, done, terr[-400:])
+    ttext = "\n".join(l for l in ttext.splitlines() if l != "tables_end") + "\n"
     tab = c18_tables.parse(ttext)
+    if dumper_crash:
+        ck.violation("C18/hash/rehash-of-empty-table-crashes", "growing an empty ArenaHash through the prime rows (h._rehash(arena, i), i = 0..23, arena block size 4096) "
+                     "stopped the process: " + dumper_crash, {"command": "c18_harness tables", "variant": "plain", "broken": "ArenaHashBase::_rehash"}, no_input=True)
     gen_dir = None
     regen = ck.coq_regen(c18_tables.render(tab))
     table_failures = []
@@ -574,6 +661,12 @@ def run(ck):
     ck.log("theorems: %d, failed: %d" % (len(obl), len([o for o in obl if not o["ok"]])))
     # (when the regenerated tables do not check, the model runs with the committed snapshot of the tables: the implementation
     # then disagrees with it wherever the changed table matters, and the monitors look for a concrete failing input)
+    # every model the extraction imports must be compiled against the current sources (some are not imported by Properties_C18.v)
+    import glob as _glob
+    models = sorted("theories/Containers/" + os.path.basename(f) + "o" for f in _glob.glob(os.path.join(vlib.COQ, "theories", "Containers", "*Model.v")))
+    bad = ck.coq_make(models + ["theories/Containers/TreeGeneral.vo"])
+    if bad:
+        raise RuntimeError("model files do not compile: %s %s" % (bad, getattr(ck, "coq_log", "")[-1500:]))
     model = ck.ocaml_model("Extract_Containers.v", ["zconv.ml", "c18_driver.ml"], name="c18", gen_dir=gen_dir)
     impl = ck.build_harness("c18", ["c18_harness.cpp"], variant="asan")
 
@@ -594,6 +687,12 @@ def run(ck):
     ncmds = sum(len(s) for s in scripts)
     ck.log("scripts: %d, commands: %d" % (len(scripts), ncmds))
     kinds, disagreements, judged, defect_hits = {}, 0, 0, {}
+    # explicit coverage counters, measured on the implementation's answers
+    cov = {"refused_operations_by_kind": {}, "vector_capacities_seen": set(), "vector_reallocations": 0, "hash_bucket_counts_seen": set(),
+           "hash_rehashes": 0, "arena_soft_reset_block_skips": 0, "arena_resets": 0, "arena_dynamic_blocks_max": 0, "arena_chain_max": 0,
+           "string_kinds_seen": set(), "string_max_size": 0, "tree_max_nodes": 0, "tree_states_accepted_by_proven_checker": 0,
+           "bitset_max_size": 0, "bitset_grow_inside_word": 0}
+    prev_state = {}
     nontrivial = set()
     samples = []
     if model is not None:
@@ -630,6 +729,10 @@ def run(ck):
                         defect_hits[key] = defect_hits.get(key, 0) + 1
                         ck.violation(key, "monitor %s fired at %r (script #%d, step %d): implementation answered %r, model %r" % (key, cmd, i, j, xs, y),
                                      {"script": s[:j + 1], "impl": x, "model": y, "variant": "asan"})
+                    try:
+                        coverage_count(cov, prev_state, i, cmd, xs)
+                    except Exception:
+                        pass
                     if k == "bitvec":
                         judged += 1
                         jr = judge_range(cmd, xs) if cmd.startswith("R ") else judge_bitvec(cmd, xs)
@@ -714,6 +817,7 @@ def run(ck):
          "samples": samples, "commands_by_kind": kinds, "distinct_nontrivial_by_kind": by_kind, "scripts": len(scripts),
          "traces_validated_against_impl": len(scripts), "model_vs_impl_disagreements": disagreements,
          "bitvec_cases_judged_by_python_oracle": judged, "monitor_hits": defect_hits,
+         "coverage_counters": {k: (sorted(v)[:40] if isinstance(v, set) else v) for k, v in cov.items()},
          "tables": {"grow_table": tab["grow"], "prime_rows": len(tab["rows"]), "regenerated_differs_from_snapshot": regen is not None}},
         assumptions=["theorems are about the Gallina models (coq/theories/Containers); the models are tied to the code by the per-operation "
                      "differential run of this check (AddressSanitizer build) and by the re-extracted tables",
